@@ -161,4 +161,19 @@ void *memchr(const void *s, int c, size_t n) {
 /* ghost outcome of the decimal parser of the port (see uri_parse_u64_contract in contracts/uri_parser.h) */
 struct pu_rec { bool ok; uint64_t val; size_t len, calls; const uint8_t *ptr; } g_pu;
 
+/* ================================================================== component views of struct aws_uri (used by loop invariants
+ * of source/uri.c, so defined before the source is included): NULL/0, or inside the first uri_str.len bytes of uri_str */
+#define UVIEW_IN(u, v)                                                                                                 \
+    (((u)->v.ptr == NULL && (u)->v.len == 0) ||                                                                        \
+     ((u)->uri_str.buffer != NULL && __CPROVER_same_object((u)->v.ptr, (u)->uri_str.buffer) &&                         \
+      (size_t)__CPROVER_POINTER_OFFSET((u)->v.ptr) <= (u)->uri_str.len &&                                              \
+      (u)->v.len <= (u)->uri_str.len - (size_t)__CPROVER_POINTER_OFFSET((u)->v.ptr)))
+#define ALL_UVIEWS_IN(u)                                                                                               \
+    (UVIEW_IN(u, scheme) && UVIEW_IN(u, authority) && UVIEW_IN(u, userinfo) && UVIEW_IN(u, user) && UVIEW_IN(u, password) && \
+     UVIEW_IN(u, host_name) && UVIEW_IN(u, path) && UVIEW_IN(u, query_string) && UVIEW_IN(u, path_and_query))
+#define UVIEW_ZERO(u, v) ((u)->v.ptr == NULL && (u)->v.len == 0)
+#define ALL_UVIEWS_ZERO(u)                                                                                             \
+    (UVIEW_ZERO(u, scheme) && UVIEW_ZERO(u, authority) && UVIEW_ZERO(u, userinfo) && UVIEW_ZERO(u, user) && UVIEW_ZERO(u, password) && \
+     UVIEW_ZERO(u, host_name) && UVIEW_ZERO(u, path) && UVIEW_ZERO(u, query_string) && UVIEW_ZERO(u, path_and_query))
+
 #endif
